@@ -277,6 +277,17 @@ func builtinJSONStringifyWalk(ctx builtinJSONStringifyContext, key string, holde
 			}
 			ctx.stack = append(ctx.stack, value)
 			defer func() { ctx.stack = ctx.stack[:len(ctx.stack)-1] }()
+			// The walk recurses natively without entering a scope, so a replacer or toJSON that answers
+			// with a fresh object every time is counted against the stack depth limit here.
+			if rt := ctx.call.runtime; rt.stackLimit != 0 {
+				depth := len(ctx.stack)
+				if rt.scope != nil {
+					depth += rt.scope.depth
+				}
+				if depth >= rt.stackLimit {
+					panic(rt.panicRangeError("Maximum call stack size exceeded"))
+				}
+			}
 		}
 		if isArray(objHolder) {
 			var length uint32
